@@ -164,7 +164,7 @@ func (t *HTree) InclusionProof(i int) (proof *InclusionProof, err error) {
 }
 
 func VerifyInclusion(proof *InclusionProof, digest, root [sha256.Size]byte) bool {
-	if proof == nil {
+	if proof == nil || proof.Leaf < 0 || proof.Leaf >= proof.Width {
 		return false
 	}
 
@@ -176,6 +176,11 @@ func VerifyInclusion(proof *InclusionProof, digest, root [sha256.Size]byte) bool
 	r := proof.Width - 1
 
 	for _, t := range proof.Terms {
+		// no term may be left once the root level has been reached
+		if r == 0 {
+			return false
+		}
+
 		b := [1 + 2*sha256.Size]byte{NodePrefix}
 
 		if i%2 == 0 && i != r {
@@ -184,6 +189,12 @@ func VerifyInclusion(proof *InclusionProof, digest, root [sha256.Size]byte) bool
 		} else {
 			copy(b[1:], t[:])
 			copy(b[1+sha256.Size:], calcRoot[:])
+
+			// a rightmost node without sibling is promoted: skip the levels without term
+			for i%2 == 0 && i != 0 {
+				i /= 2
+				r /= 2
+			}
 		}
 
 		calcRoot = sha256.Sum256(b[:])
@@ -191,5 +202,6 @@ func VerifyInclusion(proof *InclusionProof, digest, root [sha256.Size]byte) bool
 		r /= 2
 	}
 
-	return i == r && root == calcRoot
+	// every level up to the root must have been consumed
+	return r == 0 && root == calcRoot
 }
